@@ -134,11 +134,12 @@ class Pair:
                 self.session().request_x11()
             elif a == "agent":
                 self.session().request_forward_agent(None)
-            elif a.startswith("fwd:"):
+            elif a.startswith("fwd:") or a.startswith("fwdz:"):
                 self.grant = a.endswith("1")
-                self.tc.request_port_forward("127.0.0.1", 4022)
+                # fwdz: ask for port 0 and let the server allocate; a later cancel names the port that came back
+                self.port = self.tc.request_port_forward("127.0.0.1", 0 if a.startswith("fwdz:") else 4022)
             elif a == "cancel":
-                self.tc.cancel_port_forward("127.0.0.1", 4022)
+                self.tc.cancel_port_forward("127.0.0.1", getattr(self, "port", 4022))
             else:
                 raise ValueError(a)
             return "ok"
